@@ -34,4 +34,6 @@ def main : IO Unit := do
     loop h out ({} : Layer.DState) Layer.driverStep {}
   | some (.list [.atom "model", .atom "glyphorder"]) =>
     loop h out GlyphOrder.initial GlyphOrder.driverStep GlyphOrder.initial
+  | some (.list [.atom "model", .atom "kern"]) =>
+    loop h out ({} : Kern.State) Kern.driverStep {}
   | _ => out.putStrLn "unknown-model"
